@@ -23,7 +23,7 @@ PROPERTY = "C09"
 MANIFEST_INFO = {
     "engine": "B",
     "design_ref": "DESIGN.md section 5, C09",
-    "technique": "exhaustive enumeration of well-formed TestResult histories (0-3 tests x six outcomes x exc_info / reason / details forms, run- and test-level tags incl. a tag change between outcome and stopTest, explicit or implicit times) x detail payload shapes (0-2 details, 11 chunk lists (one cutting a UTF-8 sequence in two) incl. empty chunks, 4 content types with parameters, non-ASCII and empty names, non-ASCII reasons), each replayed on a fresh real ExtendedToStreamDecorator -> {stream recorder, StreamToExtendedDecorator -> extended recorder} pipeline; stream well-formedness and per-test round-trip equality oracles",
+    "technique": "exhaustive enumeration of well-formed TestResult histories (0-3 tests x six outcomes x exc_info / reason / details forms, run- and test-level tags incl. a tag change between outcome and stopTest, explicit (ascending, or set back inside a test) or implicit times) x detail payload shapes (0-2 details, 11 chunk lists (one cutting a UTF-8 sequence in two) incl. empty chunks, 4 content types with parameters, non-ASCII and empty names, non-ASCII reasons), each replayed on a fresh real ExtendedToStreamDecorator -> {stream recorder, StreamToExtendedDecorator -> extended recorder} pipeline; stream well-formedness and per-test round-trip equality oracles",
     "level_text": "Every single-test history over all ~9000 (outcome, form, payload) variants x 4 tag/time settings, every two-test history over a 60-variant alphabet (thorough: 3 tests over 14 variants, 2 tests over 120), is pushed through the real converters. Between them the stream must show per test one 'inprogress', then each detail's chunks in order with eof exactly on its last chunk, then exactly one final status; at the far end each test must reappear as one startTest/outcome/stopTest bracket with the same id, the mapped outcome (error -> failure), the tags current at its outcome, the supplied times, the skip reason and every non-empty detail with identical bytes and content type.",
     "level_note": "Content types are within the C16 round-trip envelope; details consisting only of empty chunks need not reappear; without explicit time() only the presence of timestamps is checked.",
 }
@@ -59,12 +59,12 @@ class _Case(testtools.TestCase):
         return self._vt_id
 
 
-def make_test(kind, n):
+def make_test(kind, n, tid=None):
     if kind == "case":
         t = _Case("test_x")
-        t._vt_id = "case%d" % n
+        t._vt_id = tid or "case%d" % n
         return t
-    return PlaceHolder("ph%d" % n)
+    return PlaceHolder(tid or "ph%d" % n)
 
 
 def payload_alphabet():
@@ -115,6 +115,14 @@ def make_details(payload, names=NAMES):
     return d
 
 
+def times_of(n, explicit):
+    """(start, end) supplied for test n; "back": the clock is set back inside the test
+    (TestResult.time documents that time may go backwards)."""
+    if explicit == "back":
+        return ts(2 * n + 2), ts(2 * n + 1)
+    return ts(2 * n + 1), ts(2 * n + 2)
+
+
 def run_history(tests, setting):
     """tests: [(test kind, outcome, form, payload)]; setting: (run_tags, test_tags, explicit_times[, name set])
 
@@ -123,6 +131,7 @@ def run_history(tests, setting):
     run_tags, test_tags, explicit = setting[:3]
     names = NAME_SETS[setting[3]] if len(setting) > 3 else NAMES
     target_stopped = len(setting) > 4 and setting[4] == "stopped"
+    same_id = len(setting) > 4 and setting[4] == "sameid"  # a test that is run again (retried) within the run
     stream = rec.Stream()
     ext = rec.Ext()
     top = ExtendedToStreamDecorator(CopyStreamResult([stream, StreamToExtendedDecorator(ext)]))
@@ -137,14 +146,14 @@ def run_history(tests, setting):
         if run_tags:
             top.tags({"run"}, set())
         for n, (tk, outcome, form, payload) in enumerate(tests):
-            t = make_test(tk, n)
+            t = make_test(tk, n, "retried" if same_id else None)
             if explicit:
-                top.time(ts(2 * n + 1))
+                top.time(times_of(n, explicit)[0])
             top.startTest(t)
             if test_tags:
                 top.tags({"t%d" % n}, {"run"} if n % 2 else set())
             if explicit:
-                top.time(ts(2 * n + 2))
+                top.time(times_of(n, explicit)[1])
             details = None
             reason = None
             exc = None
@@ -196,7 +205,7 @@ def check_stream(log, reported, explicit):
         if pos >= len(evs) or evs[pos]["test_id"] != tid or evs[pos]["test_status"] != "inprogress" or evs[pos]["file_name"] is not None:
             problems.append(("stream-inprogress", "test %s: expected an 'inprogress' event at position %d, stream %r" % (tid, pos, _brief(evs))))
             return problems
-        if evs[pos]["timestamp"] is None or (explicit and evs[pos]["timestamp"] != ts(2 * n + 1)):
+        if evs[pos]["timestamp"] is None or (explicit and evs[pos]["timestamp"] != times_of(n, explicit)[0]):
             problems.append(("stream-time", "test %s: inprogress timestamp %r" % (tid, evs[pos]["timestamp"])))
         pos += 1
         expected_files = []
@@ -229,7 +238,7 @@ def check_stream(log, reported, explicit):
             return problems
         if set(evs[pos]["test_tags"] or ()) != r["tags"]:
             problems.append(("stream-tags", "test %s: final event tags %r, reporter's tags %r" % (tid, evs[pos]["test_tags"], sorted(r["tags"]))))
-        if evs[pos]["timestamp"] is None or (explicit and evs[pos]["timestamp"] != ts(2 * n + 2)):
+        if evs[pos]["timestamp"] is None or (explicit and evs[pos]["timestamp"] != times_of(n, explicit)[1]):
             problems.append(("stream-time", "test %s: final timestamp %r" % (tid, evs[pos]["timestamp"])))
         pos += 1
     if pos != len(evs):
@@ -286,8 +295,8 @@ def check_roundtrip(log, reported, explicit):
             problems.append(("roundtrip-tags", "test %s: tags at the outcome %r, reporter's were %r" % (tid, sorted(tags), sorted(r["tags"]))))
         times = [e[1] for e in b["pre"] if e[0] == "time"] + [e[1] for e in b["in"] if e[0] == "time" and b["in"].index(e) < b["in"].index(out)]
         if explicit:
-            if times != [ts(2 * r["n"] + 1), ts(2 * r["n"] + 2)]:
-                problems.append(("roundtrip-times", "test %s: times %r, supplied %r" % (tid, times, [ts(2 * r["n"] + 1), ts(2 * r["n"] + 2)])))
+            if times != list(times_of(r["n"], explicit)):
+                problems.append(("roundtrip-times", "test %s: times %r, supplied %r" % (tid, times, list(times_of(r["n"], explicit)))))
         elif len(times) != 2 or any(t is None for t in times):
             problems.append(("roundtrip-times", "test %s: times %r" % (tid, times)))
         got = out[3] or {}
@@ -327,6 +336,8 @@ def work_items(tier):
             items.append(([("case",) + a, ("placeholder",) + b], s))
     for a, b in itertools.product(variants_small(3), repeat=2):
         items.append(([("case",) + a, ("placeholder",) + b], (True, True, True, 0, "stopped")))
+        items.append(([("case",) + a, ("placeholder",) + b], (False, True, "back", 0)))
+        items.append(([("case",) + a, ("placeholder",) + b], (True, True, True, 0, "sameid")))
     if tier != "quick":
         tiny = variants_small(2)[::2]
         for a, b, c in itertools.product(tiny, repeat=3):
